@@ -58,7 +58,7 @@ def run(run):
     outdir = C.scratch("c15out")
     try:
         kinds = [k for k in QG.KINDS_DEFAULT if proj.by_kind.get(k)] + ["block_comment"]
-        nq = 14 if quick else 150
+        nq = 18 if quick else 150
         for qi in range(nq):
             q = QG.random_query(rng, kinds=[k for k in kinds if k != "block_comment"], values=proj.values, depth=1,
                                 n_entities=rng.choice([1, 1, 2]), n_preds=0)
@@ -66,6 +66,15 @@ def run(run):
                 q = QG.random_query(rng, kinds=["variable_declaration"], values=proj.values, depth=0, n_entities=1, n_preds=0, where=False)
             if qi % 7 == 3:
                 text = 'FROM block_comment AS c SELECT c, "lit <&> \\"q\\" \\\\ ü"'
+                q = None
+            elif qi % 3 == 1:
+                # two entities whose aliases are textually related (prefix / suffix / substring of one another),
+                # items on both, in both orders: each cell must come from its own alias' entity
+                a1, a2 = rng.choice([("c", "cm"), ("cm", "c"), ("md", "md2"), ("x", "x1"), ("k", "kind"), ("Name", "getName"), ("a", "ba"), ("n", "n_")])
+                k1, k2 = rng.sample([k for k in ("class_declaration", "method_declaration", "variable_declaration") if proj.by_kind.get(k)], 2)
+                items = [a2 + ".getName()", a1 + ".getName()", a2, a1 + ".getVisibility()", a2 + ".getVisibility()"]
+                rng.shuffle(items)
+                text = "FROM %s AS %s, %s AS %s SELECT %s" % (k1, a1, k2, a2, ", ".join(items[:rng.randint(2, 5)]))
                 q = None
             else:
                 text = QG.plain(q)
@@ -77,7 +86,7 @@ def run(run):
             size = 1
             for k in from_kinds:
                 size *= max(1, len(proj.by_kind.get(k, [])))
-            if size > 400:
+            if size > 700:
                 stats["skipped_large"] += 1
                 continue
             sel = pr["select"]
